@@ -11,10 +11,11 @@ from ..kernel import World, Skip, HarnessError, SimCrash
 from .. import simfs
 
 INF = float("inf")
+MAP_TRACED = ("/tracklib/algo/mapping.py", "/tracklib/algo/dynamics.py")
 C06_OPS = ("dist", "dist_all", "all_pairs", "prepare", "prepared")
 C07_OPS = ("path", "path_multi")
 C10_OPS = ("map", "remap")
-OTHER_OPS = ("add_edge", "reload", "index")
+OTHER_OPS = ("add_edge", "reload", "index", "simplify")
 
 
 def _wchoice(r, pairs):
@@ -61,6 +62,7 @@ class NetWorld(World):
     NAME = "net"
     PROPS = ("C06", "C07", "C10")
     FALSIFIERS = {"C06": C06_OPS, "C07": C07_OPS, "C10": C10_OPS}
+    READ_ONLY_OPS = ("dist", "dist_all", "all_pairs", "prepared", "path", "path_multi")
     COMPONENTS = {
         "real": ["tracklib.core.Network (addEdge, routing forward/backward, prepare, distanceBtwPts)",
                  "tracklib.core.utils.priority_dict", "tracklib.core.SpatialIndex", "tracklib.algo.mapping",
@@ -89,13 +91,20 @@ class NetWorld(World):
                 if r.random() < 0.5:
                     fam[k] = 0
         road = focus == "C10" or r.random() < 0.25
-        return {"nsteps": r.choice([8, 15, 30, 60]) if focus != "C10" else r.choice([8, 12, 20, 30]),
+        hub = (not road) and r.random() < 0.35
+        if hub:
+            fam["grow"] = 5                   # dense: the queue must hold many outdated entries
+        return {"nsteps": (r.choice([8, 15, 30, 60, 100]) if not hub else r.choice([40, 60, 100]))
+                if focus != "C10" else r.choice([8, 12, 20, 30]),
                 "sessions": r.choice([1, 1, 2]), "fam": fam, "road": road,
                 "max_nodes": r.choice([2, 3, 4, 6, 9, 12]), "zero_w": r.choice([0, 0.1, 0.3]),
                 "loops": r.choice([0, 0.1]), "oneway": r.choice([0, 0.2, 0.5]),
                 "reload": r.choice([0, 0, 0.03, 0.1]), "fault_rate": r.choice([0, 0, 0.2]),
                 "grid": r.choice([2, 3, 4]), "step": r.choice([10.0, 25.0, 7.5]),
-                "vertical_exact": r.choice([0, 0, 0.02])}
+                "vertical_exact": r.choice([0, 0, 0.02]),
+                # hub mode: few nodes, many parallel edges whose weights decrease in insertion order
+                # (many decrease-key operations and outdated entries in the priority queue)
+                "hub": hub}
 
     # ------------------------------------------------------------------- setup
     def setup(self):
@@ -166,6 +175,8 @@ class NetWorld(World):
             return self._g_add_edge(r, s, m)
         fam = _wchoice(r, [(k, w) for k, w in self.cfg["fam"].items() if w])
         if fam == "grow":
+            if r.random() < 0.04 and not self.cfg["road"]:
+                return {"op": "simplify", "s": s, "tol": r.choice([0.5, 2.0, 5.0])}
             if r.random() < self.cfg["reload"]:
                 st = {"op": "reload", "s": s, "sep": r.choice([",", ";"])}
                 if r.random() < self.cfg["fault_rate"]:
@@ -181,16 +192,19 @@ class NetWorld(World):
             if op == "dist_all":
                 return {"op": "dist_all", "s": s, "a": r.randrange(64)}
             if op == "all_pairs":
-                return {"op": "all_pairs", "s": s, "cut": self._gen_cut(r, m)}
+                return {"op": "all_pairs", "s": s, "cut": self._gen_cut(r, m), "own": r.random() < 0.4,
+                        "cut2": self._gen_cut(r, m) if r.random() < 0.3 else None}
             if op == "prepare":
                 return {"op": "prepare", "s": s, "cut": self._gen_cut(r, m)}
             return {"op": "prepared", "s": s, "a": r.randrange(64), "b": r.randrange(64)}
         if fam == "C07":
-            if r.random() < 0.3:
+            if r.random() < (0.6 if self.cfg.get("hub") else 0.3):
+                k = len(m["nodes"]) if r.random() < 0.5 else r.randint(1, 4)
+                t0 = r.randrange(64)
                 return {"op": "path_multi", "s": s, "a": r.randrange(64),
-                        "targets": [r.randrange(64) for _ in range(r.randint(1, 4))]}
+                        "targets": [t0 + i for i in range(k)] if k > 4 else [r.randrange(64) for _ in range(k)]}
             return {"op": "path", "s": s, "a": r.randrange(64), "b": r.randrange(64),
-                    "as_node": r.random() < 0.2}
+                    "as_node": r.random() < 0.2, "rec": r.random() < 0.2, "scribble": r.random() < 0.25}
         # C10: needs abs_curv on every edge, an index and prepared distances
         if m["index"] is None or (r.random() < 0.05):
             return {"op": "index", "s": s, "frac": None if r.random() < 0.3 else
@@ -202,8 +216,11 @@ class NetWorld(World):
         if (s, slot) in self.tracks and r.random() < 0.35:
             return {"op": "remap", "s": s, "slot": slot, "noise": r.choice([1, 10, 50]),
                     "radius": self._gen_radius(r), "tcost": r.choice([1, 10])}
-        return {"op": "map", "s": s, "slot": slot, "obs": self._gen_track(r, m), "noise": r.choice([1, 10, 50]),
-                "radius": self._gen_radius(r), "tcost": r.choice([1, 10]), "coll": r.random() < 0.3}
+        st = {"op": "map", "s": s, "slot": slot, "obs": self._gen_track(r, m), "noise": r.choice([1, 10, 50]),
+              "radius": self._gen_radius(r), "tcost": r.choice([1, 10]), "coll": r.random() < 0.3}
+        if r.random() < self.cfg["fault_rate"] * 0.5:
+            st["fault"] = {"kind": "interrupt", "at": int(round(10 ** r.uniform(0, 3.3)))}
+        return st
 
     def _gen_cut(self, r, m):
         d = [v for v in self._fw(m).values() if v not in (0, INF)]
@@ -251,6 +268,12 @@ class NetWorld(World):
         a = "n%d" % r.randrange(nn)
         b = a if r.random() < cfg["loops"] else "n%d" % r.randrange(nn)
         w = 0 if r.random() < cfg["zero_w"] else r.choice([0.5, 1, 1, 2, 3, 4, 0.25])
+        if cfg.get("hub"):
+            if r.random() < 0.6 and m["edges"]:
+                e0 = r.choice(m["edges"])            # one more road between an already linked pair
+                a, b = (e0["s"], e0["t"]) if r.random() < 0.7 else (e0["t"], e0["s"])
+            between = [e["w"] for e in m["edges"] if {e["s"], e["t"]} == {a, b}]
+            w = max(0.25, min(between) - r.choice([0.25, 0.5, 1])) if between else r.choice([6, 8, 10, 12, 16])
         o = r.choice([1, -1]) if r.random() < cfg["oneway"] else 0
         mids = [[r.randint(0, 9) + 0.25, r.randint(0, 9) + 0.75] for _ in range(r.choice([0, 0, 1, 2]))]
         st.update({"src": a, "tgt": b, "psrc": [float(r.randint(0, 9)), float(r.randint(0, 9))],
@@ -440,7 +463,20 @@ class NetWorld(World):
         exp = self._pairs(m, cut)
         if any(v == cut for v in exp.values() if v):
             self.probe("cut_equal_to_an_exact_distance")
-        rv, exc = self.call(net.all_shortest_distances, cut)
+        if st.get("own"):
+            mine = {}
+            rv, exc = self.call(net.all_shortest_distances, cut, mine)
+            if exc is None and rv is not mine and rv != mine:
+                self.fail("C06", "table.own_dict", "the table passed by the caller must be the one filled",
+                          "same table", "another table")
+                return
+            if exc is None and st.get("cut2") is not None:
+                # documented: successive calls with the same dictionary accumulate
+                rv, exc = self.call(net.all_shortest_distances, st["cut2"], mine)
+                exp = self._pairs(m, max(cut, st["cut2"]))
+                self.probe("caller_table_filled_twice")
+        else:
+            rv, exc = self.call(net.all_shortest_distances, cut)
         if exc is not None:
             return self._unexpected("C06", exc, "all_shortest_distances(cut=%s)" % cut)
         self.observed(len(rv))
@@ -490,13 +526,32 @@ class NetWorld(World):
         if a == b:
             raise Skip()
         m["last_source"] = a
+        rec = {} if st.get("rec") else None
         if st.get("as_node"):
             rv, exc = self.call(net.shortest_path, net.getNode(a), net.getNode(b))
+        elif rec is not None:
+            rv, exc = self.call(net.shortest_path, a, b, 1e300, rec)
         else:
             rv, exc = self.call(net.shortest_path, a, b)
         if exc is not None:
             return self._unexpected("C07", exc, "shortest_path(%s, %s)" % (a, b))
-        if self._judge_path(m, a, b, rv, "shortest_path(%s, %s)" % (a, b)):
+        if rec:
+            d = self._fw(m)
+            for (src, n2), val in rec.items():
+                if src != a or n2 not in m["nodes"] or not self._deq(m, val, d[(a, n2)]):
+                    self.fail("C06", "table.recorded", "distance recorded in the caller's table during "
+                              "shortest_path(%s, %s) for pair %s" % (a, b, [src, n2]), d.get((a, n2)), val)
+                    return
+            self.probe("distances_recorded_during_path_search")
+        ok = self._judge_path(m, a, b, rv, "shortest_path(%s, %s)" % (a, b))
+        if ok and rv is not None and st.get("scribble"):
+            # the returned route belongs to the caller: editing it in place must not reach
+            # into the network (later queries are judged against the unchanged model)
+            for o in rv:
+                o.position.setX(o.position.getX() + 3.0)
+                o.position.setY(o.position.getY() - 2.0)
+            self.probe("caller_edits_returned_route_in_place")
+        if ok:
             rd, exc = self.call(net.shortest_distance, a, b)
             d = self._fw(m)[(a, b)]
             if exc is None and d != INF and not self._deq(m, rd, d):
@@ -629,6 +684,31 @@ class NetWorld(World):
         if got != exp:
             self.fail("C06", "reload.structure", "edges of the reloaded network", exp, got)
 
+    def op_simplify(self, st):
+        """Network.simplify replaces every edge geometry (Douglas-Peucker).  Which
+        vertices survive is C16's subject and is not judged: the model adopts the
+        new polylines (end points must stay) and later routes must be built from
+        them, not from anything remembered from before."""
+        net, m = self._sess(st)
+        if not m["edges"] or any(e["pts"][0] == e["pts"][-1] for e in m["edges"]):
+            raise Skip()            # closed geometries: division by zero in the simplifier (C16, not claimed)
+        if any(p == q for e in m["edges"] for p, q in zip(e["pts"], e["pts"][1:])):
+            raise Skip()
+        _, exc = self.call(net.simplify, st["tol"], 1)
+        if exc is not None:
+            return self._unexpected("C07", exc, "Network.simplify")
+        for k, e in enumerate(m["edges"]):
+            g = net.getEdge(e["id"]).geom
+            pts = [[o.position.getX(), o.position.getY()] for o in g]
+            if len(pts) < 2 or pts[0] != e["pts"][0] or pts[-1] != e["pts"][-1]:
+                self.note("simplify moved an end point of edge %s (not judged)" % e["id"])
+                raise HarnessError("simplify changed the end points of an edge: model cannot follow")
+            if len(pts) != len(e["pts"]):
+                self.probe("edge_geometry_changed_by_simplify")
+            e["pts"] = pts
+        m["all_abs"] = False
+        m["index"] = None if m["index"] is None else m["index"]
+
     # ------------------------------------------------------------------ C10 ops
     def _extent(self, m):
         xs = [p[0] for e in m["edges"] for p in e["pts"]]
@@ -694,11 +774,30 @@ class NetWorld(World):
         if on_vertical:
             self.probe("on_vertical")
         arg = TrackCollection([g for g, _ in group]) if st.get("coll") else tr
-        _, exc = self.call(mapOnNetwork, arg, net, st["noise"], st["tcost"], radius)
+        fault = st.get("fault")
+        if fault:
+            # a notebook user interrupts a long matching (Ctrl-C): the process and the module
+            # globals of tracklib.algo.mapping live on; later calls are held to every oracle
+            self.fs.plan.arm(fault)
+            self.stats["fault_armed:interrupt"] += 1
+            with simfs.Interrupter(self.fs.plan, traced=MAP_TRACED):
+                _, exc = self.call(mapOnNetwork, arg, net, st["noise"], st["tcost"], radius)
+            fired = self.fs.plan.fired
+            self.fs.plan.clear()
+            if fired:
+                self.stats["fault_fired:interrupt"] += 1
+                for k2 in [k2 for k2, v in self.tracks.items() if any(v["real"] is g for g, _ in group)]:
+                    del self.tracks[k2]          # the half-processed tracks are thrown away
+                self.probe("interrupted_map_matching")
+                return "fault"
+        else:
+            _, exc = self.call(mapOnNetwork, arg, net, st["noise"], st["tcost"], radius)
         if exc is not None:
             import traceback
             tb = traceback.extract_tb(exc.__traceback__)
             frame = tb[-1].name if tb else "?"
+            for k2 in [k2 for k2, v in self.tracks.items() if any(v["real"] is g for g, _ in group)]:
+                del self.tracks[k2]
             return self._unexpected("C10", exc, where, frame=frame, on_vertical=on_vertical)
         total = 0
         for (g, ob), snap in zip(group, snaps):
